@@ -257,16 +257,22 @@ class AsyncClient(base_client.BaseClient):
         except ValueError:
             raise exceptions.ConnectionError(
                 'Unexpected response from server') from None
-        open_packet = p.packets[0]
-        if open_packet.packet_type != packet.OPEN:
+        open_packet = p.packets[0] if p.packets else None
+        if open_packet is None or open_packet.packet_type != packet.OPEN:
             raise exceptions.ConnectionError(
                 'OPEN packet not returned by server')
         self.logger.info(
             'Polling connection accepted with ' + str(open_packet.data))
-        self.sid = open_packet.data['sid']
-        self.upgrades = open_packet.data['upgrades']
-        self.ping_interval = int(open_packet.data['pingInterval']) / 1000.0
-        self.ping_timeout = int(open_packet.data['pingTimeout']) / 1000.0
+        try:
+            self.sid = open_packet.data['sid']
+            self.upgrades = open_packet.data['upgrades']
+            self.ping_interval = \
+                int(open_packet.data['pingInterval']) / 1000.0
+            self.ping_timeout = int(open_packet.data['pingTimeout']) / 1000.0
+        except (KeyError, TypeError, ValueError):
+            await self._reset()
+            raise exceptions.ConnectionError(
+                'Invalid OPEN packet returned by server') from None
         self.current_transport = 'polling'
         self.base_url += '&sid=' + self.sid
 
@@ -361,8 +367,12 @@ class AsyncClient(base_client.BaseClient):
                     'WebSocket upgrade failed: unexpected recv exception: %s',
                     str(e))
                 return False
-            pkt = packet.Packet(encoded_packet=p)
-            if pkt.packet_type != packet.PONG or pkt.data != 'probe':
+            try:
+                pkt = packet.Packet(encoded_packet=p)
+            except ValueError:
+                pkt = None
+            if pkt is None or pkt.packet_type != packet.PONG or \
+                    pkt.data != 'probe':
                 self.logger.warning(
                     'WebSocket upgrade failed: no PONG packet')
                 return False
@@ -382,15 +392,25 @@ class AsyncClient(base_client.BaseClient):
             except Exception as e:  # pragma: no cover
                 raise exceptions.ConnectionError(
                     'Unexpected recv exception: ' + str(e))
-            open_packet = packet.Packet(encoded_packet=p)
+            try:
+                open_packet = packet.Packet(encoded_packet=p)
+            except ValueError:
+                raise exceptions.ConnectionError('no OPEN packet') from None
             if open_packet.packet_type != packet.OPEN:
                 raise exceptions.ConnectionError('no OPEN packet')
             self.logger.info(
                 'WebSocket connection accepted with ' + str(open_packet.data))
-            self.sid = open_packet.data['sid']
-            self.upgrades = open_packet.data['upgrades']
-            self.ping_interval = int(open_packet.data['pingInterval']) / 1000.0
-            self.ping_timeout = int(open_packet.data['pingTimeout']) / 1000.0
+            try:
+                self.sid = open_packet.data['sid']
+                self.upgrades = open_packet.data['upgrades']
+                self.ping_interval = \
+                    int(open_packet.data['pingInterval']) / 1000.0
+                self.ping_timeout = \
+                    int(open_packet.data['pingTimeout']) / 1000.0
+            except (KeyError, TypeError, ValueError):
+                await self._reset()
+                raise exceptions.ConnectionError(
+                    'Invalid OPEN packet returned by server') from None
             self.current_transport = 'websocket'
 
             self.state = 'connected'
